@@ -84,6 +84,35 @@ def generic_args(t):
     return mirparse.split_top(t[k + 1:-1])
 
 
+def _collect_reads(node, out):
+    """locals read by a parsed statement / terminator (any ('copy'|'move', place) operand)"""
+    if isinstance(node, tuple):
+        if len(node) == 2 and node[0] in ('copy', 'move') and isinstance(node[1], tuple) and node[1] and node[1][0] == 'place':
+            out.add(node[1][1])
+            for pr in node[1][2]:
+                if pr[0] == 'index':
+                    out.add(pr[1])
+            return
+        for x in node:
+            _collect_reads(x, out)
+    elif isinstance(node, list):
+        for x in node:
+            _collect_reads(x, out)
+
+
+def simp2(t):
+    """z3's simplifier is not idempotent on nested if-then-else terms: run it until it stops changing (max 3x)"""
+    r = z3.simplify(t)
+    for _ in range(2):
+        if z3.is_true(r) or z3.is_false(r):
+            break
+        r2 = z3.simplify(r)
+        if r2.eq(r):
+            break
+        r = r2
+    return lift(r)
+
+
 class Obligation:
     __slots__ = ('kind', 'guard', 'where', 'msg')
 
@@ -94,9 +123,21 @@ class Obligation:
         return 'Obligation(%s @%s: %s)' % (self.kind, self.where, self.msg[:80])
 
 
+class GC:
+    """a path-condition conjunct that came from a multi-way branch: arm `arm` of `n` of branch `uid`"""
+    __slots__ = ('c', 'uid', 'arm', 'n')
+
+    def __init__(self, c, uid, arm, n):
+        self.c, self.uid, self.arm, self.n = c, uid, arm, n
+
+
+def _gc_cond(x):
+    return x.c if isinstance(x, GC) else x
+
+
 class State:
-    """store + path condition.  The path condition is kept as a tuple of conjuncts so that joins can drop the
-    branch conditions again when every branch survives (keeps guards small across long unrolled loops)."""
+    """store + path condition.  The path condition is a tuple of conjuncts (some tagged with the branch arm they
+    came from) so that joins can drop branch conditions again when every arm arrives."""
     __slots__ = ('store', 'conj', '_g')
 
     def __init__(self, store=None, guard=True, conj=None):
@@ -110,7 +151,7 @@ class State:
     @property
     def guard(self):
         if self._g is None:
-            self._g = b_and(*self.conj)
+            self._g = b_and(*[_gc_cond(x) for x in self.conj])
         return self._g
 
     @guard.setter
@@ -125,12 +166,69 @@ class State:
         self._g = None
 
     def fork(self, cond):
-        return State(dict(self.store), conj=self.conj + ((cond,) if cond is not True else ()))
+        if cond is True:
+            return State(dict(self.store), conj=self.conj)
+        return State(dict(self.store), conj=self.conj + (cond,))
+
+
+def _suffix_cond(sf):
+    return b_and(*[_gc_cond(x) for x in sf])
+
+
+def _reduce_suffixes(sufs):
+    """sufs: list of conjunct tuples (relative to a common prefix) of mutually exclusive arrivals.
+    Repeatedly replace complete sets of sibling arms (same branch uid, all n arms, identical heads) by their head.
+    Returns a disjunction (z3 Bool / python bool) equivalent to OR_i AND(suf_i)."""
+    sufs = [tuple(s) for s in sufs]
+    changed = True
+    while changed:
+        changed = False
+        groups = {}
+        for s in sufs:
+            if s and isinstance(s[-1], GC):
+                groups.setdefault((s[-1].uid, tuple(id(x) for x in s[:-1])), []).append(s)
+        for (uid, _), members in groups.items():
+            n = members[0][-1].n
+            if len(members) == n and len(set(m[-1].arm for m in members)) == n:
+                head = members[0][:-1]
+                sufs = [s for s in sufs if not any(s is m for m in members)] + [head]
+                changed = True
+                break
+    if any(len(s) == 0 for s in sufs):
+        return True
+    return b_or(*[_suffix_cond(s) for s in sufs])
+
+
+def merge_arrivals(states):
+    """merge states that reach the same unrolled node on mutually exclusive paths"""
+    if len(states) == 1:
+        return states[0]
+    n = min(len(s.conj) for s in states)
+    k = 0
+    first = states[0].conj
+    while k < n and all(s.conj[k] is first[k] for s in states[1:]):
+        k += 1
+    prefix = first[:k]
+    sufs = [s.conj[k:] for s in states]
+    conds = [_suffix_cond(sf) for sf in sufs]
+    res = states[-1]
+    store = dict(res.store)
+    for c, s in zip(reversed(conds[:-1]), reversed(states[:-1])):
+        for key in set(store) | set(s.store):
+            a = s.store.get(key)
+            b = store.get(key)
+            if a is b:
+                continue
+            try:
+                store[key] = ite(c, a, b)
+            except Unsupported as e:
+                raise Unsupported('merging %r: %s' % (key, e))
+    disj = _reduce_suffixes(sufs)
+    return State(store, conj=prefix + ((disj,) if disj is not True else ()))
 
 
 def merge_states(parts, base_conj=None, exhaustive=False):
-    """parts: [(cond, State)] with mutually exclusive conds.  base_conj: the conjunct tuple of the state that was
-    forked; exhaustive: the conds cover every case (no branch was dropped)."""
+    """parts: [(cond, State)] with mutually exclusive conds (used by the closure-call helper of the models)."""
     parts = [(c, s) for c, s in parts if s is not None]
     if not parts:
         return None
@@ -139,8 +237,7 @@ def merge_states(parts, base_conj=None, exhaustive=False):
     res = parts[-1][1]
     store = dict(res.store)
     for c, s in reversed(parts[:-1]):
-        keys = set(store) | set(s.store)
-        for k in keys:
+        for k in set(store) | set(s.store):
             a = s.store.get(k)
             b = store.get(k)
             if a is b:
@@ -149,17 +246,14 @@ def merge_states(parts, base_conj=None, exhaustive=False):
                 store[k] = ite(c, a, b)
             except Unsupported as e:
                 raise Unsupported('merging %r: %s' % (k, e))
-    # path condition
     if base_conj is not None:
         n = len(base_conj)
         ok = all(len(s.conj) >= n and all(x is y for x, y in zip(s.conj[:n], base_conj)) for _, s in parts)
         if ok:
             sufs = [s.conj[n:] for _, s in parts]
-            if exhaustive and all(len(sf) == 1 and sf[0] is c for sf, (c, _) in zip(sufs, parts)):
+            if exhaustive and all(len(sf) == 1 and (_gc_cond(sf[0]) is c) for sf, (c, _) in zip(sufs, parts)):
                 return State(store, conj=base_conj)
-            if exhaustive and all(len(sf) == 0 for sf in sufs):
-                return State(store, conj=base_conj)
-            disj = b_or(*[b_and(*sf) for sf in sufs])
+            disj = b_or(*[_suffix_cond(sf) for sf in sufs])
             return State(store, conj=base_conj + ((disj,) if disj is not True else ()))
     guard = b_or(*[s.guard for _, s in parts])
     return State(store, guard)
@@ -265,6 +359,92 @@ class Program:
     def field_index(self, struct_path, fname):
         return self.structs[struct_path].index(fname)
 
+    # ---- control-flow graph facts for the worklist executor
+    def cfg(self, item):
+        key = ('cfg', item.name)
+        if key in self._pdom:
+            return self._pdom[key]
+        succ = {}
+        for b, (sts, term) in item.blocks.items():
+            k = term[0]
+            if k == 'goto':
+                sx = [term[1]]
+            elif k == 'switch':
+                sx = [t for _, t in term[2]] + ([term[3]] if term[3] is not None else [])
+            elif k == 'call':
+                sx = [term[4]] if term[4] is not None else []
+            elif k == 'assert':
+                sx = [term[4]]
+            elif k == 'drop':
+                sx = [term[2]] if term[2] is not None else []
+            else:
+                sx = []
+            succ[b] = [x for x in sx if x in item.blocks]
+        # iterative DFS: post-order + back edges
+        post, back = [], []
+        color = {}
+        stack = [(0, iter(succ.get(0, [])))]
+        color[0] = 1
+        while stack:
+            u, itr = stack[-1]
+            adv = False
+            for v in itr:
+                if color.get(v, 0) == 0:
+                    color[v] = 1
+                    stack.append((v, iter(succ.get(v, []))))
+                    adv = True
+                    break
+                elif color[v] == 1:
+                    back.append((u, v))
+            if not adv:
+                color[u] = 2
+                post.append(u)
+                stack.pop()
+        rpo = {b: i for i, b in enumerate(reversed(post))}
+        pred = {}
+        for u, vs in succ.items():
+            if u not in rpo:
+                continue
+            for v in vs:
+                pred.setdefault(v, []).append(u)
+        body = {}
+        for u, h in back:
+            bset = body.setdefault(h, {h})
+            work = [u]
+            while work:
+                x = work.pop()
+                if x in bset:
+                    continue
+                bset.add(x)
+                work.extend(pred.get(x, []))
+        chain = {}
+        for b in rpo:
+            hs = [h for h in body if b in body[h]]
+            hs.sort(key=lambda h: -len(body[h]))
+            chain[b] = hs
+        # loop-carried integer locals: read in the header block and written somewhere in the loop body
+        carried = {}
+        for h, bset in body.items():
+            reads = set()
+            sts, term = item.blocks[h]
+            for st_ in sts:
+                _collect_reads(st_, reads)
+            _collect_reads(term, reads)
+            writes = set()
+            for b in bset:
+                bs, bt = item.blocks[b]
+                for st_ in bs:
+                    if st_[0] == 'assign' and not st_[1][2]:
+                        writes.add(st_[1][1])
+                if bt[0] == 'call' and bt[1] is not None and not bt[1][2]:
+                    writes.add(bt[1][1])
+            c = sorted(l for l in reads & writes if norm_type(item.locals.get(l, '')) in INT_TYPES)
+            if c:
+                carried[h] = c
+        res = {'rpo': rpo, 'body': body, 'chain': chain, 'succ': succ, 'carried': carried}
+        self._pdom[key] = res
+        return res
+
     # ---- post-dominators
     def ipdom(self, item):
         key = item.name
@@ -345,6 +525,7 @@ class Executor:
         self.obligations = []
         self.pre = []         # harness assumptions (z3 Bools)
         self.fid_counter = itertools.count(1)
+        self.branch_counter = itertools.count(1)
         self.heap_counter = itertools.count(1)
         self.loop_bound = 70
         self.functions_run = {}
@@ -1109,42 +1290,112 @@ class Executor:
         return ret, res
 
     def exec_from(self, fr, bb, stop, st):
+        """compatibility wrapper: run the whole body from its entry block"""
+        assert bb == 0 and stop == EXIT
+        return self.run_body(fr, st)
+
+    def run_body(self, fr, st0):
+        """Execute one function body.  The unrolled control-flow graph is walked in topological order
+        (reverse post-order, loop iterations outermost first); all states that arrive at the same unrolled node are
+        merged before the node is executed, so early returns / `?` / break / continue do not multiply paths."""
+        import heapq
         item = fr.item
-        ipdom, reach = self.prog.ipdom(item)
-        while bb != stop:
+        cfg = self.prog.cfg(item)
+        rpo, body, chain, carried = cfg['rpo'], cfg['body'], cfg['chain'], cfg['carried']
+        pending = {}
+        heap = []
+        INF = 1 << 60
+
+        def key_of(bb, ctx):
             if bb == EXIT:
-                raise Unsupported('reached function exit while looking for bb%s in %s' % (stop, item.name))
+                return ((INF, 0, ()),)
+            return tuple((rpo[h], it, tag) for h, it, tag in ctx) + ((rpo[bb], 0, ()),)
+
+        def push(bb, ctx, st):
+            k = key_of(bb, ctx)
+            slot = pending.get(k)
+            if slot is None:
+                pending[k] = (bb, ctx, [st])
+                heapq.heappush(heap, k)
+            else:
+                slot[2].append(st)
+
+        def goto(src, ctx, tgt, st):
+            if tgt == EXIT:
+                push(EXIT, (), st)
+                return
+            if tgt not in rpo:
+                return      # cleanup / unreachable-from-entry block
+            new = []
+            back = False
+            for h, it, tag in ctx:
+                if tgt in body[h]:
+                    if tgt == h and src in body[h]:
+                        # back edge: next iteration of this loop, inner loops are left
+                        if it + 1 > self.loop_bound:
+                            self.oblige('unwind', st.guard, self.where(fr, src), 'loop bound %d exceeded' % self.loop_bound)
+                            return
+                        new.append((h, it + 1, ()))
+                        back = True
+                        break
+                    new.append((h, it, tag))
+                else:
+                    break
+            if not back and tgt in body and not any(h == tgt for h, _, _ in new):
+                new.append((tgt, 0, ()))
+            push(tgt, tuple(new), st)
+
+        push(0, ((0, 0, ()),) if 0 in body else (), st0)
+        final = None
+        while heap:
+            k = heapq.heappop(heap)
+            bb, ctx, states = pending.pop(k)
+            if bb != EXIT and ctx and ctx[-1][0] in carried:
+                # inside a loop: keep arrivals apart when the loop-carried integer locals (counters / indices) hold
+                # different concrete values, so that those stay concrete instead of becoming if-then-else terms
+                h_ = ctx[-1][0]
+                groups = {}
+                for s_ in states:
+                    vals = tuple(s_.store.get(('L', fr.fid, l)) for l in carried[h_])
+                    tag = tuple(v.v for v in vals) if all(isinstance(v, CI) for v in vals) else (-1,)
+                    groups.setdefault(tag, []).append(s_)
+                if len(groups) > 1 or (len(groups) == 1 and next(iter(groups)) != ctx[-1][2] and next(iter(groups)) != (-1,)
+                                       and len(states) > 1 and False):
+                    for tag, members in groups.items():
+                        nctx = ctx[:-1] + ((ctx[-1][0], ctx[-1][1], tag),)
+                        for s_ in members:
+                            push(bb, nctx, s_)
+                    continue
+            st = merge_arrivals(states)
+            if bb == EXIT:
+                final = st
+                continue
             sts, term = item.blocks[bb]
             for s in sts:
                 self.exec_stmt(fr, s, st)
-            k = term[0]
-            if k == 'goto':
-                bb = term[1]
-            elif k == 'return':
-                bb = EXIT
-            elif k == 'call':
-                ok = self.exec_call(fr, bb, term, st)
-                if not ok:
-                    return None
-                st = ok
-                if term[4] is None:
-                    return None
-                bb = term[4]
-            elif k == 'assert':
+            kk = term[0]
+            if kk == 'goto':
+                goto(bb, ctx, term[1], st)
+            elif kk == 'return':
+                goto(bb, ctx, EXIT, st)
+            elif kk == 'call':
+                st2 = self.exec_call(fr, bb, term, st)
+                if st2 and term[4] is not None:
+                    goto(bb, ctx, term[4], st2)
+            elif kk == 'assert':
                 c = self.eval_operand(fr, term[1], st)
                 good = c if term[2] else b_not(c)
                 if good is False:
                     self.oblige('panic', st.guard, self.where(fr, bb), 'assert: ' + term[3])
-                    return None
+                    continue
                 if good is not True:
                     self.oblige('panic', b_and(st.guard, b_not(good)), self.where(fr, bb), 'assert: ' + term[3])
                     st.add_guard(good)
-                bb = term[4]
-            elif k == 'drop':
-                if term[2] is None:
-                    return None
-                bb = term[2]
-            elif k == 'switch':
+                goto(bb, ctx, term[4], st)
+            elif kk == 'drop':
+                if term[2] is not None:
+                    goto(bb, ctx, term[2], st)
+            elif kk == 'switch':
                 v = self.eval_operand(fr, term[1], st)
                 if isinstance(v, bool):
                     v = CI(int(v), 8)
@@ -1158,11 +1409,9 @@ class Executor:
                             break
                     if tgt is None:
                         tgt = term[3]
-                    if tgt is None:
-                        return None
-                    bb = tgt
+                    if tgt is not None:
+                        goto(bb, ctx, tgt, st)
                     continue
-                # symbolic branch
                 conds = []
                 if isinstance(v, z3.BoolRef):
                     seen = []
@@ -1176,14 +1425,12 @@ class Executor:
                     w = v.size()
                     eqs = []
                     for val, t in term[2]:
-                        c = lift(z3.simplify(v == z3.BitVecVal(val, w)))
+                        c = simp2(v == z3.BitVecVal(val, w))
                         conds.append((c, t))
                         eqs.append(c)
                     if term[3] is not None:
-                        conds.append((lift(z3.simplify(z3.Not(z3.Or(*[zb(e) for e in eqs])))) if eqs else True, term[3]))
-                # group by target
-                grouped = {}
-                order = []
+                        conds.append((simp2(z3.Not(z3.Or(*[zb(e) for e in eqs]))) if eqs else True, term[3]))
+                grouped, order = {}, []
                 for c, t in conds:
                     if c is False:
                         continue
@@ -1192,62 +1439,40 @@ class Executor:
                         order.append(t)
                     else:
                         grouped[t] = b_or(grouped[t], c)
-                live = [(grouped[t], t) for t in order if t in reach]
-                # targets that cannot reach the exit (panic arms) are run for their obligations only; when the
-                # pruning solver shows such an arm infeasible under the harness assumptions it is dropped (that IS the
-                # discharge of its obligation) and does not constrain the path condition of the surviving arms
-                pruned = set()
+                arms = []
                 for t in order:
-                    if t not in reach:
-                        if self.feasible(b_and(st.guard, grouped[t])):
-                            self.exec_from(fr, t, None, st.fork(grouped[t]))
-                        else:
-                            pruned.add(t)
-                            self.stats['pruned_panic_arms'] = self.stats.get('pruned_panic_arms', 0) + 1
-                if not live:
-                    return None
-                if len(live) == 1:
-                    c, t = live[0]
-                    if not all(t2 == t or t2 in pruned or item.blocks[t2][1][0] == 'unreachable' for t2 in order):
-                        st.add_guard(c)
-                    elif any(item.blocks[t2][1][0] == 'unreachable' for t2 in order if t2 != t):
-                        st.add_guard(c)
-                    bb = t
+                    blk = item.blocks.get(t)
+                    if blk is not None and not blk[0] and blk[1][0] == 'unreachable':
+                        # compiler-asserted impossible value: obligation, does not count as an arm of the join
+                        self.oblige('unreachable', b_and(st.guard, grouped[t]), self.where(fr, t), 'MIR `unreachable` terminator')
+                        continue
+                    if self.prune_solver is not None and not self.feasible(b_and(st.guard, grouped[t])):
+                        continue
+                    arms.append(t)
+                if not arms:
                     continue
-                j = ipdom.get(bb)
-                if j is None:
-                    raise Unsupported('no post-dominator for bb%d in %s' % (bb, item.name))
-                cnt = fr.visits.get(bb, 0) + 1
-                fr.visits[bb] = cnt
-                if cnt > self.loop_bound:
-                    self.oblige('unwind', st.guard, self.where(fr, bb), 'loop bound %d exceeded' % self.loop_bound)
-                    fr.visits[bb] = cnt - 1
-                    return None
+                if len(arms) == 1:
+                    if len(order) > 1 and not (self.prune_solver is not None):
+                        st.add_guard(grouped[arms[0]])
+                    elif len(order) > 1:
+                        # the other arms were `unreachable` blocks (obligations) or proven infeasible
+                        if any(item.blocks[t][1][0] == 'unreachable' for t in order if t != arms[0]):
+                            st.add_guard(grouped[arms[0]])
+                    goto(bb, ctx, arms[0], st)
+                    continue
                 self.stats['forks'] += 1
-                parts = []
-                base_conj = st.conj
-                for c, t in live:
-                    r = self.exec_from(fr, t, j, st.fork(c))
-                    parts.append((c, r))
-                fr.visits[bb] = cnt - 1
-                live_t = set(t for _, t in live)
-                exhaustive = all(r is not None for _, r in parts) and all(
-                    t in live_t or t in pruned or item.blocks[t][1][0] == 'unreachable' for t in order)
-                st = merge_states(parts, base_conj, exhaustive)
-                self.stats['merges'] += 1
-                if st is None:
-                    return None
-                bb = j
-            elif k == 'unreachable':
+                uid = next(self.branch_counter)
+                for i, t in enumerate(arms):
+                    goto(bb, ctx, t, st.fork(GC(grouped[t], uid, i, len(arms))))
+            elif kk == 'unreachable':
                 self.oblige('unreachable', st.guard, self.where(fr, bb), 'MIR `unreachable` terminator')
-                return None
-            elif k == 'resume':
-                return None
-            elif k == 'unparsed':
+            elif kk == 'resume':
+                pass
+            elif kk == 'unparsed':
                 raise Unsupported('unparsed block in %s: %s' % (item.name, term[1]))
             else:
                 raise Unsupported('terminator %r' % (term,))
-        return st
+        return final
 
     def exec_stmt(self, fr, s, st):
         if s[0] == 'assign':
